@@ -41,6 +41,7 @@ func init() {
 			"C28.R4 TABLE: ByteRange element kinds accepted by the strict parser = kinds read by the boundary check",
 			"C28.R5 flow: increment numbers reach validation unadjusted",
 			"C28.R6 MPT: a historical signature has both whole-document conclusions withdrawn (DocModified and Reason, independently)",
+			"C28.R7 independence: the first ByteRange offset is tested against 0 unconditionally and a non-zero offset is always an error",
 			"C28.R3 shape: byte-range and gap validators",
 		},
 		Assumptions: []string{"ctx.Read.FileSize is the size of the file that was read", "the increment number passed by ValidateSignatures identifies the xref section"},
@@ -611,6 +612,8 @@ func runC28(c *Ctx) {
 	r.MinInst["C28.R4"] = 1
 	r.MinInst["C28.R5"] = 1
 	r.MinInst["C28.R6"] = 1
+	r.MinInst["C28.R7"] = 1
+	checkFirstRangeStartsAtZero(c)
 	checkHistoricalWithdrawsBoth(c)
 	checkSignedRangeReaders(c, "C28.R3")
 	checkByteRangeKinds(c)
@@ -1588,5 +1591,102 @@ func checkValidatedReaderIsTheCallers(c *Ctx) {
 	visit(fn)
 	if n == 0 {
 		r.Bad("C27.R6", fid, "reader arguments", p.Pos(fn.Pos()), "UNDECIDED: ValidateSignatures hands its reader to nobody")
+	}
+}
+
+// ---------------- C28.R7 (round 4 seed C28-G): the first range starts at offset 0, unconditionally ----------------
+
+// checkFirstRangeStartsAtZero: "covers the document" starts at byte 0. validateByteRange rejects a ByteRange whose
+// first offset is not 0; that rejection must not depend on anything else in the array (an exemption for an empty first
+// range lets [k 0 k+L n] through: every byte before /Contents is unsigned and the gap and end-of-file checks still
+// pass). The comparison of element 0 with 0 is therefore not control-dependent on another branch of the function, and
+// its "not zero" edge leads to error returns only.
+func checkFirstRangeStartsAtZero(c *Ctx) {
+	p, r := c.P, c.R
+	const fid = "pkg/pdfcpu/sign.validateByteRange"
+	fn := p.Func(fid)
+	if fn == nil || len(fn.Params) == 0 {
+		r.Bad("C28.R7", fid, "anchor", "", "UNRESOLVED-ANCHOR")
+		return
+	}
+	isElem0 := func(v ssa.Value) bool {
+		for {
+			switch x := v.(type) {
+			case *ssa.UnOp:
+				if x.Op == token.MUL {
+					v = x.X
+					continue
+				}
+			case *ssa.IndexAddr:
+				k, ok := constInt(x.Index)
+				return ok && k == 0
+			case *ssa.Index:
+				k, ok := constInt(x.Index)
+				return ok && k == 0 && x.X == ssa.Value(fn.Params[0])
+			}
+			return false
+		}
+	}
+	n := 0
+	eachInstr(fn, func(b *ssa.BasicBlock, _ int, i ssa.Instruction) {
+		bo, ok := i.(*ssa.BinOp)
+		if !ok || (bo.Op != token.NEQ && bo.Op != token.EQL) {
+			return
+		}
+		var other ssa.Value
+		switch {
+		case isElem0(bo.X):
+			other = bo.Y
+		case isElem0(bo.Y):
+			other = bo.X
+		default:
+			return
+		}
+		if k, ok := constInt(other); !ok || k != 0 {
+			return
+		}
+		n++
+		// control dependence: some If above decides whether this comparison is evaluated
+		dependent := false
+		for _, x := range fn.Blocks {
+			if x == b || len(x.Instrs) == 0 {
+				continue
+			}
+			if _, ok := x.Instrs[len(x.Instrs)-1].(*ssa.If); !ok {
+				continue
+			}
+			d0, d1 := edgeDominates(Edge{x, 0}, b), edgeDominates(Edge{x, 1}, b)
+			if d0 != d1 {
+				dependent = true
+			}
+		}
+		// the not-zero edge leads to error returns only
+		errOnly := true
+		for _, e := range condEdges(bo, bo.Op == token.NEQ) {
+			s := e.From.Succs[e.Succ]
+			blocks := reachableBlocks(s)
+			blocks[s] = true
+			for bb := range blocks {
+				if len(bb.Instrs) == 0 {
+					continue
+				}
+				if ret, ok := bb.Instrs[len(bb.Instrs)-1].(*ssa.Return); ok {
+					if k, ok := returnErrKind(ret); !ok || k != errNonNil {
+						errOnly = false
+					}
+				}
+			}
+		}
+		switch {
+		case dependent:
+			r.Bad("C28.R7", fid, "first offset is 0", p.Pos(bo.Pos()), "the test that the first range begins at offset 0 is evaluated only under another condition: a ByteRange that satisfies the exemption (an empty first range) may start anywhere, so the bytes in front of the signature are not covered while the signature is still reported as covering the document")
+		case !errOnly:
+			r.Bad("C28.R7", fid, "first offset is 0", p.Pos(bo.Pos()), "a first offset other than 0 does not always end in an error")
+		default:
+			r.OK("C28.R7", fid, "first offset is 0", p.Pos(bo.Pos()), "tested unconditionally; a non-zero first offset ends in an error on every path", true)
+		}
+	})
+	if n == 0 {
+		r.Bad("C28.R7", fid, "first offset is 0", p.Pos(fn.Pos()), "UNDECIDED: no comparison of the first ByteRange element with 0")
 	}
 }
